@@ -108,7 +108,32 @@ class ShrinkGuard:
             self.best = (size, json.loads(canon(case)), msg, detail)
 
 
-def run_given(strategy, oracle, seed, max_examples, stats, shrink_budget=60.0, time_budget=None):
+class CaseTimeout(BaseException):
+    """Raised by the watchdog inside a case that runs far longer than any legitimate case."""
+
+
+CASE_TIMEOUT = float(os.environ.get("VERIF_CASE_TIMEOUT", "120"))
+
+
+def with_watchdog(fn, case, seconds=None):
+    """Runs fn(case) under an interval timer; a Python-level non-terminating loop in the code under test is
+    interrupted with CaseTimeout (normal cases take milliseconds; the limit is 2-3 orders of magnitude above)."""
+    import signal
+    seconds = seconds or CASE_TIMEOUT
+
+    def handler(signum, frame):
+        raise CaseTimeout()
+    old = signal.signal(signal.SIGALRM, handler)
+    signal.setitimer(signal.ITIMER_REAL, seconds)
+    try:
+        return fn(case)
+    finally:
+        signal.setitimer(signal.ITIMER_REAL, 0)
+        signal.signal(signal.SIGALRM, old)
+
+
+def run_given(strategy, oracle, seed, max_examples, stats, shrink_budget=60.0, time_budget=None,
+              on_timeout="skip"):
     """Drive `oracle(case)` (raises Violation on failure) with Hypothesis.
 
     Returns None if no violation, else dict(case=…, msg=…).  `case` objects must
@@ -131,7 +156,15 @@ def run_given(strategy, oracle, seed, max_examples, stats, shrink_budget=60.0, t
             stats.budget_exhausted = True
             return
         try:
-            oracle(case)
+            with_watchdog(oracle, case)
+        except CaseTimeout:
+            stats.event("case_timeout")
+            stats.extra["case_timeouts"] = stats.extra.get("case_timeouts", 0) + 1
+            if on_timeout == "violation":
+                msg = "the call did not return within %.0f s (ordinary cases take milliseconds): non-termination" % CASE_TIMEOUT
+                guard.record(case, msg, None)
+                raise Violation(msg)
+            return
         except Violation as v:
             guard.record(case, v.msg, v.detail)
             raise
